@@ -25,6 +25,14 @@ def _const(node) -> object:
 # ------------------------------------------------------------------ R13.1
 
 
+def _cargs(call: ast.Call) -> list[str]:
+    """Argument texts of a constructor call in field order, whether passed positionally or by keyword."""
+    from ..astutil import ctor_args
+
+    a = ctor_args(call)
+    return [src(x) for x in (a if a is not None else call.args)]
+
+
 def r13_1_as_trivial(ctx: Ctx, rule: str = "R13.1") -> None:
     run, m = ctx.run, ctx.m
     run.rule(
@@ -34,6 +42,21 @@ def r13_1_as_trivial(ctx: Ctx, rule: str = "R13.1") -> None:
         "literal/not/and/or may fold to a constant",
         expected_min=14,
     )
+    # the result of folding/flattening is decided exactly on all small trees (sa/rules/foldeval.py); the shape rules
+    # below additionally pin the Kleene table path by path where the fold is written as a loop over the operands
+    from . import foldeval
+
+    foldeval.fold_instances(ctx, rule)
+    # a fold that is sound on every small tree but written (or completed) differently is not a violation: the shape
+    # rules localise a failure of the exact decision, they do not condemn a rewrite
+    exact_ok = all(ok for inst_, ok, *_ in foldeval.decided(ctx) if inst_.startswith("as_trivial"))
+
+    def shape_fail(inst, msg, **kw):
+        if exact_ok:
+            run.ok(rule, inst, {"shape_deviation": msg})
+        else:
+            run.fail(rule, inst, msg, **kw)
+
     for cname, (ident, absorb, _py, _sql) in CONNECTIVES.items():
         c = ctx.cls(PREDICATE, cname)
         f = c.methods.get("as_trivial")
@@ -41,7 +64,8 @@ def r13_1_as_trivial(ctx: Ctx, rule: str = "R13.1") -> None:
             raise AnalysisError(f"{cname}.as_trivial is missing")
         paths = ctx.paths(f)
         if not any(s.kind == "loop" for p in paths for s in p.steps):
-            raise AnalysisError(f"{cname}.as_trivial is no longer a loop over the operands: rule cannot decide it")
+            run.note(f"{rule}: {cname}.as_trivial is not written as a loop over the operands; decided by evaluation only")
+            continue
         # the loop ranges over all operands
         loops = {src(s.node.iter) for p in paths for s in p.steps if s.kind == "loop" and isinstance(s.node, ast.For)}
         if loops == {"self.operands"}:
@@ -87,7 +111,7 @@ def r13_1_as_trivial(ctx: Ctx, rule: str = "R13.1") -> None:
             else:
                 problem = f"returns `{src(v)[:50]}`"
             if problem:
-                run.fail(rule, inst, f"{cname}.as_trivial {problem}", fi=f, node=p.node, details=describe(p))
+                shape_fail(inst, f"{cname}.as_trivial {problem}", fi=f, node=p.node, details=describe(p))
             else:
                 run.ok(rule, inst, {"path": p.describe()})
     # LogicalNot
@@ -101,15 +125,15 @@ def r13_1_as_trivial(ctx: Ctx, rule: str = "R13.1") -> None:
             if any(fct.kind == "IS" and fct.polarity and "None" in fct.args and "self.operand.as_trivial()" in fct.args for fct in facts):
                 run.ok(rule, inst)
             else:
-                run.fail(rule, inst, "LogicalNot.as_trivial returns None although the operand's folding was not None", fi=f, node=p.node)
+                shape_fail(inst, "LogicalNot.as_trivial returns None although the operand's folding was not None", fi=f, node=p.node)
         elif isinstance(v, ast.UnaryOp) and isinstance(v.op, ast.Not):
             b = resolve_name(p, v.operand.id) if isinstance(v.operand, ast.Name) else v.operand
             if isinstance(b, ast.Call) and src(b) == "self.operand.as_trivial()" and any(fct.kind == "IS" and not fct.polarity and "None" in fct.args for fct in facts):
                 run.ok(rule, inst)
             else:
-                run.fail(rule, inst, "LogicalNot.as_trivial negates something other than a known operand value", fi=f, node=p.node)
+                shape_fail(inst, "LogicalNot.as_trivial negates something other than a known operand value", fi=f, node=p.node)
         else:
-            run.fail(rule, inst, f"LogicalNot.as_trivial returns `{src(v)}` (must be None for unknown, else the negation)", fi=f, node=p.node)
+            shape_fail(inst, f"LogicalNot.as_trivial returns `{src(v)}` (must be None for unknown, else the negation)", fi=f, node=p.node)
     # who may fold to a constant
     for c in ctx.k.concrete(ctx.k.predicates):
         f = m.method(c, "as_trivial")
@@ -121,13 +145,13 @@ def r13_1_as_trivial(ctx: Ctx, rule: str = "R13.1") -> None:
             if rets == {"self.value"}:
                 run.ok(rule, inst)
             else:
-                run.fail(rule, inst, f"PredicateLiteral.as_trivial returns {sorted(rets)} instead of its value", fi=f)
+                shape_fail(inst, f"PredicateLiteral.as_trivial returns {sorted(rets)} instead of its value", fi=f)
         else:
             rets = [p.value for p in ctx.paths(f)]
             if all(isinstance(r, ast.Constant) and r.value is None for r in rets):
                 run.ok(rule, inst)
             else:
-                run.fail(rule, inst, f"{c.name}.as_trivial folds to a constant although its truth depends on the row", fi=f)
+                shape_fail(inst, f"{c.name}.as_trivial folds to a constant although its truth depends on the row", fi=f)
     # zero/one-operand factories
     pred = ctx.cls(PREDICATE, "Predicate")
     for fname, (ident, _a, _p, _s) in (("logical_and", CONNECTIVES["LogicalAnd"]), ("logical_or", CONNECTIVES["LogicalOr"])):
@@ -140,7 +164,7 @@ def r13_1_as_trivial(ctx: Ctx, rule: str = "R13.1") -> None:
             v = p.value
             facts = path_facts(p)
             if has_fact(facts, "TRUTH", ("operands",), False):
-                ok = isinstance(v, ast.Call) and call_attr(v) in ("literal", "PredicateLiteral") and v.args and _const(v.args[0]) is ident
+                ok = isinstance(v, ast.Call) and call_attr(v) in ("literal", "PredicateLiteral") and ((v.args and _const(v.args[0]) is ident) or (kw(v, "value") is not None and _const(kw(v, "value")) is ident))
                 if ok:
                     run.ok(rule, inst)
                 else:
@@ -151,13 +175,13 @@ def r13_1_as_trivial(ctx: Ctx, rule: str = "R13.1") -> None:
                 else:
                     run.fail(rule, inst, f"Predicate.{fname}(x) returns `{src(v)}` instead of x", fi=f, node=p.node)
             else:
-                ok = isinstance(v, ast.Call) and (dotted(v.func) or "") == ctor and v.args and src(v.args[0]) == "operands"
+                ok = isinstance(v, ast.Call) and (dotted(v.func) or "") == ctor and _cargs(v)[:1] == ["operands"]
                 if ok:
                     run.ok(rule, inst)
                 else:
                     run.fail(rule, inst, f"Predicate.{fname}(...) returns `{src(v)}` instead of {ctor}(operands)", fi=f, node=p.node)
     notf = pred.methods.get("logical_not")
-    if notf and all(isinstance(p.value, ast.Call) and (dotted(p.value.func) or "") == "LogicalNot" and [src(a) for a in p.value.args] == ["self"] for p in ctx.paths(notf)):
+    if notf and all(isinstance(p.value, ast.Call) and (dotted(p.value.func) or "") == "LogicalNot" and _cargs(p.value) == ["self"] for p in ctx.paths(notf)):
         run.ok(rule, "Predicate.logical_not")
     else:
         run.fail(rule, "Predicate.logical_not", "Predicate.logical_not does not return LogicalNot(self)", fi=notf or f)
@@ -176,6 +200,11 @@ def r13_2_flatten(ctx: Ctx, rule: str = "R13.2") -> None:
     )
     f = m.func(PREDICATE, "flatten_logical_and")
     pr = f.params[0]
+    # the result is decided exactly by evaluation (foldeval); the path shapes below localise a failure, they do not
+    # condemn an equivalent rewrite
+    from . import foldeval
+
+    exact_ok = all(ok for inst_, ok, *_ in foldeval.decided(ctx) if inst_.startswith("flatten"))
     for i, p in enumerate(ctx.paths(f)):
         inst = f"flatten:path{i}"
         v = p.value
@@ -232,8 +261,11 @@ def r13_2_flatten(ctx: Ctx, rule: str = "R13.2") -> None:
                 problem = problem or "the accumulated conjunct list does not start empty"
         else:
             problem = f"returns `{src(v)[:40]}`"
-        if problem:
+        if problem and not exact_ok:
             run.fail(rule, inst, f"flatten_logical_and {problem}", fi=f, node=p.node or f.node, details=describe(p))
+        elif problem:
+            # written differently from the pinned implementation, but equivalent on every small tree (R13.5)
+            run.ok(rule, inst, {"path": p.describe(), "shape_deviation": problem})
         else:
             run.ok(rule, inst, {"path": p.describe()})
 
@@ -533,7 +565,9 @@ def r12_2_function_lookup(ctx: Ctx, rule: str = "R12.2") -> None:
         run.fail(rule, "get_function:single-definition", f"get_function is (re)defined in {[c.key for c in owners]}: the engines may resolve the same name differently", file=owners[-1].module.path if owners else root.module.path, line=1, func="get_function")
     gf = owners[0].methods["get_function"] if owners else None
     if gf is not None:
-        rets = [src(p.value) for p in ctx.paths(gf) if p.outcome == "return"]
+        from ..flow import expanded_value
+
+        rets = [src(expanded_value(p)) for p in ctx.paths(gf) if p.outcome == "return"]
         nm = [p for p in gf.params if p != "self"][0]
         if rets == [f"getattr(operator, {nm}, self.functions.get({nm}))"]:
             run.ok(rule, "get_function:operator-first")
@@ -751,7 +785,7 @@ def r12_6_factories(ctx: Ctx, rule: str = "R12.6") -> None:
     for fn, ctor in (("function", "ColumnFunction"), ("predicate_function", "PredicateFunction")):
         f = ce.methods.get(fn)
         rets = [p.value for p in ctx.paths(f) if p.outcome == "return"] if f else []
-        ok = len(rets) == 1 and isinstance(rets[0], ast.Call) and (dotted(rets[0].func) or "") == ctor and [src(a) for a in rets[0].args[:2]] == ["name", "args"]
+        ok = len(rets) == 1 and isinstance(rets[0], ast.Call) and (dotted(rets[0].func) or "") == ctor and _cargs(rets[0])[:2] == ["name", "args"]
         if ok:
             run.ok(rule, f"ColumnExpression.{fn}")
         else:
@@ -760,7 +794,7 @@ def r12_6_factories(ctx: Ctx, rule: str = "R12.6") -> None:
     f = cc.methods.get("contains")
     rets = [p.value for p in ctx.paths(f) if p.outcome == "return"] if f else []
     item = [q for q in f.params if q != "self"][0] if f else "item"
-    ok = len(rets) == 1 and isinstance(rets[0], ast.Call) and (dotted(rets[0].func) or "") == "ColumnInContainer" and [src(a) for a in rets[0].args] == [item, "self"]
+    ok = len(rets) == 1 and isinstance(rets[0], ast.Call) and (dotted(rets[0].func) or "") == "ColumnInContainer" and _cargs(rets[0]) == [item, "self"]
     if ok:
         run.ok(rule, "ColumnContainer.contains")
     else:
@@ -769,7 +803,7 @@ def r12_6_factories(ctx: Ctx, rule: str = "R12.6") -> None:
     for fn, ctor, arg in (("literal", "PredicateLiteral", "value"), ("reference", "PredicateReference", "tag")):
         f = pr.methods.get(fn)
         rets = [p.value for p in ctx.paths(f) if p.outcome == "return"] if f else []
-        ok = len(rets) == 1 and isinstance(rets[0], ast.Call) and (dotted(rets[0].func) or "") == ctor and [src(a) for a in rets[0].args] == [arg]
+        ok = len(rets) == 1 and isinstance(rets[0], ast.Call) and (dotted(rets[0].func) or "") == ctor and _cargs(rets[0]) == [arg]
         if ok:
             run.ok(rule, f"Predicate.{fn}")
         else:
